@@ -407,6 +407,58 @@ T = {
     caught_by="C19.replicas_agree in mode c19, and the proof obligation C19.ranges_as_expected (regenerated table of every range over a map)",
     history="MISSED at first (execute messages rarely named two executable orders); executable order pairs and execute-all messages added, and the table of map ranges is now "
             "regenerated and compared with a classified expectation; caught since"),
+ "C01-5": dict(
+    change="x/perpetual/keeper/mtp_borrow_interest.go SettleMTPBorrowInterestUnpaidLiability: the amm pool is re-read from the store before the interest payments are taken out of it",
+    needs="an owner's MsgClose of a perpetual position with accrued interest that returns custody: the caller's stale pool copy overwrites the interest deduction",
+    caught_by="C01.reserve_eq_held and C01.liquidity_eq_sum in hist mode",
+    history="caught at first run"),
+ "C03-5": dict(
+    change="x/amm/types/calc_in_amt_given_out.go CalcInAmtGivenOut: weights taken from NormalizedWeights with the indices of the oracle branch (exponent inverted for non-oracle pools)",
+    needs="an exact-out swap on a constant-product pool with unequal weights, buying the heavier asset",
+    caught_by="C03.weighted_within_1e8 in mode c03",
+    history="caught at first run"),
+ "C04-5": dict(
+    change="x/amm/keeper/keeper_swap_exact_amount_out.go InternalSwapExactAmountOut: the maximum-input guard applies only to a positive maximum",
+    needs="an exact-out request whose stated maximum is 0 (or negative): accepted, queued and executed at full price",
+    caught_by="C04.exact_out_debit in mode c04",
+    history="MISSED at first (stated maxima were the quote and values around it); the boundary values 0, -1 and 1 of the limit added; caught since"),
+ "C07-5": dict(
+    change="x/stablestake/keeper/begin_blocker.go: the per-block interest entry is written only on epoch boundaries",
+    needs="governance sets the vault's EpochLength above 1, the rate model lowers the rate between two boundaries, a debt settled at one boundary is settled again at a later one: negative interest is booked",
+    caught_by="C07.others_unharmed (driver C07H) in stored history corpus/C07-negative-interest-at-epoch-boundaries and lp-focused histories with vault governance",
+    history="MISSED at first (the op sequences of mode c07 run no begin-blocker; histories never changed the epoch length); driver C07H added (on real blocks the stated value does not fall "
+            "without a redemption and the live redemption rate does not fall in a block without a lender) with governance of the vault's epoch length; caught since"),
+ "C08-5": dict(
+    change="x/leveragelp/genesis.go InitGenesis: the id counter is read off the LAST imported position instead of the maximum over all",
+    needs="positions of several owners with id gaps, the highest id not last in store order (owner address first), an export/import of the genesis, then a new open",
+    caught_by="C08.position_eq_committed, C08.pool_eq_sum, C08.counter in hist mode with genesis round trips; the id-counter correspondence",
+    history="caught at first run"),
+ "C10-5": dict(
+    change="x/leveragelp/keeper/begin_blocker.go: the sweep caches each amm pool per page instead of re-reading it per position",
+    needs="two positions of one pool in one sweep: the first is closed by the sweep, the second has a stop loss within the first's share of the pool below the market and an expired lock",
+    caught_by="C10.third_party_close in mode c10 (sweep pairs)",
+    history="MISSED at first (stop losses were far from the market, most worlds had the sweep off or slow, all positions were inside their one-hour lock); near-market stop losses, "
+            "two quiet hours before the rounds, default sweep preferred and directed pairs (a liquidatable position ahead of one whose stop loss sits just under the market) added; caught since"),
+ "C11-5": dict(
+    change="x/accountedpool/keeper/hooks_amm.go UpdateAccountedPoolOnAmmChange: early return for pools whose UseOracle is off",
+    needs="governance switches UseOracle off on a pool that has perpetual trading, then a swap, join or exit on it",
+    caught_by="C11.total_eq in hist mode with pool-parameter governance (VERIF_GOVPOOL run)",
+    history="MISSED at first (C11 had no run with pool-parameter governance, which round 4 had added for C12); run added; caught since"),
+ "C12-5": dict(
+    change="x/commitment/keeper/commit_liquid_tokens.go CommitLiquidTokens: a second commit with the same unlock time tops up the existing lock-up through a range copy (lost) and clears its own lock",
+    needs="the same account joins the same oracle pool twice at one block time, then exits the second join's shares within the hour",
+    caught_by="C12.lock_recorded in hist mode",
+    history="MISSED at first (no account joined a pool twice in one block, and no clause said that a join's shares must be under a lock); double joins in one tx and clause C12.lock_recorded added; caught since"),
+ "C17-5": dict(
+    change="x/tokenomics/keeper/msg_server_airdrop.go UpdateAirdrop: the governance check and the stored-owner check merged with && instead of ||",
+    needs="an airdrop whose stored authority is not governance (genesis-imported), updated by that address",
+    caught_by="C17.refused in mode c17",
+    history="caught at first run"),
+ "C19-5": dict(
+    change="x/assetprofile/keeper: denom -> base denom hints memoised in process memory (validated against the store, so values stay right, but gas differs between a warm and a cold node)",
+    needs="a restart (or different query traffic) between the first lookup of a denom and a later transaction that looks it up again; replicas compared on gas used / results",
+    caught_by="C19.replicas_agree in mode c19 (gas used per tx is part of what the replicas are compared on)",
+    history="caught at first run"),
 }
 
 root = os.path.join(os.path.dirname(os.path.dirname(os.path.abspath(__file__))), "seeded")
